@@ -45,6 +45,7 @@ func cmdRun(args []string) {
 	samples := fs.Int("samples", 2, "")
 	solver := fs.String("solver", "", "z3|cvc5")
 	tmo := fs.Int("timeout", 0, "solver timeout ms")
+	prof := fs.Bool("profile", false, "")
 	fs.Parse(args)
 	P, err := loadProgram([]string{"./" + *pkg})
 	if err != nil {
@@ -52,7 +53,7 @@ func cmdRun(args []string) {
 		os.Exit(2)
 	}
 	fmt.Fprintf(os.Stderr, "loaded in %v\n", P.LoadTime.Round(time.Millisecond))
-	res := sx.Explore(P, sx.HarnessCfg{Pkg: sx.RepoModule + "/" + *pkg, Func: *fn, Solver: *solver, SolverTimeoutMS: *tmo, Workers: *workers, MaxPaths: *maxPaths, LoopBound: *loop, MaxDeviations: *dev, SampleModels: *samples, DumpDir: "/verif/.work/unknown"})
+	res := sx.Explore(P, sx.HarnessCfg{Pkg: sx.RepoModule + "/" + *pkg, Func: *fn, Profile: *prof, Solver: *solver, SolverTimeoutMS: *tmo, Workers: *workers, MaxPaths: *maxPaths, LoopBound: *loop, MaxDeviations: *dev, SampleModels: *samples, DumpDir: "/verif/.work/unknown"})
 	res.Functions = nil
 	b, _ := json.MarshalIndent(res, "", " ")
 	fmt.Println(string(b))
